@@ -133,7 +133,8 @@ def raw_rows(ds):
                 rows.append((bid, e.id, us_of(e.timestamp), dus_of(e.duration), canon_data(e.data)))
         return rows
     if b == "sqlite":
-        st.conn.commit()
+        # no commit here: the store's own connection sees its open transaction, and an
+        # observation must not flush buffered writes (a seeded rollback-on-error was masked by it)
         return [tuple(r) for r in st.conn.execute("SELECT bucketrow, id, starttime, endtime, datastr FROM events ORDER BY id")]
     cur = st.db.execute_sql("SELECT bucket_id, id, timestamp, duration, datastr FROM eventmodel ORDER BY id")
     return [(r[0], r[1], str(r[2]), str(r[3]), r[4]) for r in cur.fetchall()]
